@@ -92,6 +92,8 @@ def design_flat(r, name):
     ghosts_seen = False
     for k in range(n):
         kinds = ["plain", "plain", "rename", "action", "astype"]
+        if a_named and s_named:
+            kinds.append("ghost1")         # a ghost of one flavour only: `ghost_owned` / `ghost_ref` (grouped spelling)
         if a_named or k == n - 1:
             kinds.append("ghost")          # under a positional counterpart a ghost is only placed last (known index-skew defect otherwise)
         kind = r.choice(kinds)
@@ -100,11 +102,18 @@ def design_flat(r, name):
         if not a_named and kind == "rename":
             kind = "plain"
         f = {"k": k, "kind": kind, "sname": f"s{k}" if s_named else str(k)}
-        if kind == "ghost":
+        if kind == "ghost1":
+            # the member is a ghost in the owned (or the by-reference) conversions only, an ordinary member in the others
+            f["flavour"] = r.choice(["owned", "ref"])
+            f["const"] = 600 + k
+            f["aname"] = f["sname"]
+            f["aty"] = "i64"
+            a_members.append((f["aname"], "i64"))
+        elif kind == "ghost":
             f["const"] = 700 + k
             # a bare #[ghost] member of a named struct: its value comes from the From instruction's `..update`
             f["upd"] = s_named and r.random() < 0.35
-        else:
+        if kind not in ("ghost", "ghost1"):
             idx = len(a_members)
             if a_named:
                 an = f"r{k}" if kind == "rename" or (kind in ("action", "astype") and r.random() < 0.5) or not s_named else f["sname"]
@@ -122,7 +131,7 @@ def design_flat(r, name):
                 m.tags.append("tuple-hint-expression-without-index")
         s_fields.append(f)
     struct_ghost = a_named and r.random() < 0.4
-    extra = a_named and r.random() < (0.7 if fallible else 0.4)
+    extra = a_named and (r.random() < (0.7 if fallible else 0.4) or any(f["kind"] == "ghost1" for f in s_fields))
     if struct_ghost:
         a_members.append(("g", "i64"))
     if extra:
@@ -147,7 +156,9 @@ def design_flat(r, name):
         fa = []
         same = s_named and a_named and f.get("aname") == f["sname"]
         tgt = f.get("aname")
-        if f["kind"] == "ghost" and f.get("upd"):
+        if f["kind"] == "ghost1":
+            fa.append(f"#[o2o(ghost_{f['flavour']}({{ {f['const']} }}))]")
+        elif f["kind"] == "ghost" and f.get("upd"):
             fa.append("#[ghost]")
         elif f["kind"] == "ghost":
             fa.append(f"#[ghost({{ {f['const']} }})]")
@@ -191,8 +202,16 @@ def design_flat(r, name):
         if s_named:
             return ("named", "S", [(f["sname"], d[f["sname"]]) for f in s_fields])
         return ("tuple", "S", [d[f["sname"]] for f in s_fields])
+    def exp_s_for(flav):
+        d = dict(exp_s)
+        for f in s_fields:
+            if f["kind"] == "ghost1":
+                d[f["sname"]] = f["const"] if f["flavour"] == flav else aval[f["aname"]]
+        return d
     exp_s = {}
     for f in s_fields:
+        if f["kind"] == "ghost1":
+            continue
         if f["kind"] == "ghost":
             exp_s[f["sname"]] = (800 + f["k"]) if f.get("upd") else f["const"]
         elif f["kind"] == "action":
@@ -200,10 +219,14 @@ def design_flat(r, name):
         else:
             exp_s[f["sname"]] = aval[f["aname"]]
 
-    def exp_a(base):
+    def exp_a(base, flav="owned"):
         d = dict(base)
         for f in s_fields:
             if f["kind"] == "ghost":
+                continue
+            if f["kind"] == "ghost1":
+                if f["flavour"] != flav:
+                    d[f["aname"]] = sval[f["sname"]]
                 continue
             if f["kind"] == "action":
                 d[f["aname"]] = sval[f["sname"]] + f["add"] + (5 if f["usevar"] else 0)
@@ -218,19 +241,19 @@ def design_flat(r, name):
     q = "?" if False else ""
     wrap = (lambda v: ("ok", v)) if fallible else (lambda v: v)
     if fallible:
-        m.tests.append(("from_owned", f'let a = {a_lit}; let r: Result<S, String> = S::try_from(a); println!("{name} from_owned {{:?}}", r);', dbg(wrap(s_value(exp_s)))))
-        m.tests.append(("from_ref", f'let a = {a_lit}; let r: Result<S, String> = S::try_from(&a); println!("{name} from_ref {{:?}}", r);', dbg(wrap(s_value(exp_s)))))
+        m.tests.append(("from_owned", f'let a = {a_lit}; let r: Result<S, String> = S::try_from(a); println!("{name} from_owned {{:?}}", r);', dbg(wrap(s_value(exp_s_for("owned"))))))
+        m.tests.append(("from_ref", f'let a = {a_lit}; let r: Result<S, String> = S::try_from(&a); println!("{name} from_ref {{:?}}", r);', dbg(wrap(s_value(exp_s_for("ref"))))))
         m.tests.append(("into_owned", f'let s = {s_lit}; let r: Result<A, String> = s.try_into(); println!("{name} into_owned {{:?}}", r);', dbg(wrap(a_value(exp_a(zero))))))
-        m.tests.append(("into_ref", f'let s = {s_lit}; let r: Result<A, String> = (&s).try_into(); println!("{name} into_ref {{:?}}", r);', dbg(wrap(a_value(exp_a(zero))))))
+        m.tests.append(("into_ref", f'let s = {s_lit}; let r: Result<A, String> = (&s).try_into(); println!("{name} into_ref {{:?}}", r);', dbg(wrap(a_value(exp_a(zero, "ref"))))))
         m.tests.append(("existing_owned", f'let s = {s_lit}; let mut o = {lit(a_value(pre_exist))}; s.try_into_existing(&mut o).unwrap(); println!("{name} existing_owned {{:?}}", o);', dbg(a_value(exp_a(pre_exist)))))
-        m.tests.append(("existing_ref", f'let s = {s_lit}; let mut o = {lit(a_value(pre_exist))}; (&s).try_into_existing(&mut o).unwrap(); println!("{name} existing_ref {{:?}}", o);', dbg(a_value(exp_a(pre_exist)))))
+        m.tests.append(("existing_ref", f'let s = {s_lit}; let mut o = {lit(a_value(pre_exist))}; (&s).try_into_existing(&mut o).unwrap(); println!("{name} existing_ref {{:?}}", o);', dbg(a_value(exp_a(pre_exist, "ref")))))
     else:
-        m.tests.append(("from_owned", f'let a = {a_lit}; let r = S::from(a); println!("{name} from_owned {{:?}}", r);', dbg(s_value(exp_s))))
-        m.tests.append(("from_ref", f'let a = {a_lit}; let r = S::from(&a); println!("{name} from_ref {{:?}}", r);', dbg(s_value(exp_s))))
+        m.tests.append(("from_owned", f'let a = {a_lit}; let r = S::from(a); println!("{name} from_owned {{:?}}", r);', dbg(s_value(exp_s_for("owned")))))
+        m.tests.append(("from_ref", f'let a = {a_lit}; let r = S::from(&a); println!("{name} from_ref {{:?}}", r);', dbg(s_value(exp_s_for("ref")))))
         m.tests.append(("into_owned", f'let s = {s_lit}; let r: A = s.into(); println!("{name} into_owned {{:?}}", r);', dbg(a_value(exp_a(zero)))))
-        m.tests.append(("into_ref", f'let s = {s_lit}; let r: A = (&s).into(); println!("{name} into_ref {{:?}}", r);', dbg(a_value(exp_a(zero)))))
+        m.tests.append(("into_ref", f'let s = {s_lit}; let r: A = (&s).into(); println!("{name} into_ref {{:?}}", r);', dbg(a_value(exp_a(zero, "ref")))))
         m.tests.append(("existing_owned", f'let s = {s_lit}; let mut o = {lit(a_value(pre_exist))}; s.into_existing(&mut o); println!("{name} existing_owned {{:?}}", o);', dbg(a_value(exp_a(pre_exist)))))
-        m.tests.append(("existing_ref", f'let s = {s_lit}; let mut o = {lit(a_value(pre_exist))}; (&s).into_existing(&mut o); println!("{name} existing_ref {{:?}}", o);', dbg(a_value(exp_a(pre_exist)))))
+        m.tests.append(("existing_ref", f'let s = {s_lit}; let mut o = {lit(a_value(pre_exist))}; (&s).into_existing(&mut o); println!("{name} existing_ref {{:?}}", o);', dbg(a_value(exp_a(pre_exist, "ref")))))
     return m
 
 
@@ -277,7 +300,10 @@ def design_flat_parent(r, name):
     nb = r.randrange(1, 4)
     ns = r.randrange(1, 3)
     dup = r.random() < 0.75
-    a_members = [f"b{k}" for k in range(nb)] + [f"s{k}" for k in range(ns)]
+    # `vars(..)` of an into_existing instruction used by a struct-level ghost (the Into flavour of the post-init dialect
+    # drops `vars` on the pinned tree — documented defect — so these programs do not request `into`)
+    use_vars = r.random() < 0.35
+    a_members = [f"b{k}" for k in range(nb)] + [f"s{k}" for k in range(ns)] + (["g"] if use_vars else [])
     m.types.append(f"{DERIVES} pub struct A {{ " + ", ".join(f"pub {nm}: i64" for nm in a_members) + " }")
     m.types.append(f"#[derive(o2o)] {DERIVES} #[{pre}from(A{err})] #[{pre}into_existing(A{err})] pub struct Base {{ " + ", ".join(f"pub b{k}: i64" for k in range(nb)) + " }")
     fields = [("base", "#[parent] pub base: Base")] + [(f"s{k}", f"pub s{k}: i64") for k in range(ns)]
@@ -285,7 +311,10 @@ def design_flat_parent(r, name):
     if dup:
         fields.append(("dup", f"#[map(b{dup_to})] pub dup: i64"))
     r.shuffle(fields)
-    item = f"#[{pre}from(A{err})] #[{pre}into(A{err})] #[{pre}into_existing(A{err})] pub struct S {{ " + ", ".join(src for _, src in fields) + " }"
+    if use_vars:
+        item = f"#[{pre}from(A{err})] #[{pre}into_existing(A{err} | vars(v0: {{ 5 }}, v1: {{ v0 * 2 }}))] #[ghosts(g: {{ v1 + 1 }})] pub struct S {{ " + ", ".join(src for _, src in fields) + " }"
+    else:
+        item = f"#[{pre}from(A{err})] #[{pre}into(A{err})] #[{pre}into_existing(A{err})] pub struct S {{ " + ", ".join(src for _, src in fields) + " }"
     m.derive_src = item
     m.types.append(f"#[derive(o2o)] {DERIVES} " + item)
     aval = {nm: 10 * (i + 1) + 1 for i, nm in enumerate(a_members)}
@@ -301,21 +330,26 @@ def design_flat_parent(r, name):
     sval["dup"] = 300
     exp_a = {f"b{k}": sval[f"base.b{k}"] for k in range(nb)}
     exp_a.update({f"s{k}": sval[f"s{k}"] for k in range(ns)})
+    exp_a["g"] = 11
     ea = ("named", "A", [(nm, exp_a[nm]) for nm in a_members])
     pre_exist = ("named", "A", [(nm, 9000 + i) for i, nm in enumerate(a_members)])
     a_lit, s_lit = lit(a_v), lit(s_v(sval))
     if fallible:
         m.tests.append(("from_owned", f'let a = {a_lit}; let r: Result<S, String> = S::try_from(a); println!("{name} from_owned {{:?}}", r);', dbg(("ok", s_v(exp_s)))))
         m.tests.append(("from_ref", f'let a = {a_lit}; let r: Result<S, String> = S::try_from(&a); println!("{name} from_ref {{:?}}", r);', dbg(("ok", s_v(exp_s)))))
-        m.tests.append(("into_owned", f'let s = {s_lit}; let r: Result<A, String> = s.try_into(); println!("{name} into_owned {{:?}}", r);', dbg(("ok", ea))))
-        m.tests.append(("into_ref", f'let s = {s_lit}; let r: Result<A, String> = (&s).try_into(); println!("{name} into_ref {{:?}}", r);', dbg(("ok", ea))))
+        if not use_vars:
+          m.tests.append(("into_owned", f'let s = {s_lit}; let r: Result<A, String> = s.try_into(); println!("{name} into_owned {{:?}}", r);', dbg(("ok", ea))))
+        if not use_vars:
+          m.tests.append(("into_ref", f'let s = {s_lit}; let r: Result<A, String> = (&s).try_into(); println!("{name} into_ref {{:?}}", r);', dbg(("ok", ea))))
         m.tests.append(("existing_owned", f'let s = {s_lit}; let mut o = {lit(pre_exist)}; s.try_into_existing(&mut o).unwrap(); println!("{name} existing_owned {{:?}}", o);', dbg(ea)))
         m.tests.append(("existing_ref", f'let s = {s_lit}; let mut o = {lit(pre_exist)}; (&s).try_into_existing(&mut o).unwrap(); println!("{name} existing_ref {{:?}}", o);', dbg(ea)))
     else:
         m.tests.append(("from_owned", f'let a = {a_lit}; let r = S::from(a); println!("{name} from_owned {{:?}}", r);', dbg(s_v(exp_s))))
         m.tests.append(("from_ref", f'let a = {a_lit}; let r = S::from(&a); println!("{name} from_ref {{:?}}", r);', dbg(s_v(exp_s))))
-        m.tests.append(("into_owned", f'let s = {s_lit}; let r: A = s.into(); println!("{name} into_owned {{:?}}", r);', dbg(ea)))
-        m.tests.append(("into_ref", f'let s = {s_lit}; let r: A = (&s).into(); println!("{name} into_ref {{:?}}", r);', dbg(ea)))
+        if not use_vars:
+          m.tests.append(("into_owned", f'let s = {s_lit}; let r: A = s.into(); println!("{name} into_owned {{:?}}", r);', dbg(ea)))
+        if not use_vars:
+          m.tests.append(("into_ref", f'let s = {s_lit}; let r: A = (&s).into(); println!("{name} into_ref {{:?}}", r);', dbg(ea)))
         m.tests.append(("existing_owned", f'let s = {s_lit}; let mut o = {lit(pre_exist)}; s.into_existing(&mut o); println!("{name} existing_owned {{:?}}", o);', dbg(ea)))
         m.tests.append(("existing_ref", f'let s = {s_lit}; let mut o = {lit(pre_exist)}; (&s).into_existing(&mut o); println!("{name} existing_ref {{:?}}", o);', dbg(ea)))
     return m
@@ -625,14 +659,21 @@ def design_prim(r, name):
         if v["form"] == "wild":
             return True
         return x == v["lo"] or x == v["hi"]
+    # a bare #[ghost] variant (no counterpart value): skipped by From, sent to the default case by Into
+    ghost_at = r.randrange(0, nv + 1) if r.random() < 0.35 else None
     vs = []
     for v in variants:
+        if ghost_at is not None and v["k"] == ghost_at:
+            vs.append("#[ghost] G")
         if v["kind"] == "lit":
             vs.append(f"#[literal({v['x']})] V{v['k']}")
         else:
             ptxt = f"{v['lo']}..={v['hi']}" if v["form"] == "range" else ("_" if v["form"] == "wild" else f"{v['lo']} | {v['hi']}")
             vs.append(f"#[pattern({ptxt})] #[into({{ {v['into']} }})] V{v['k']}")
-    item = '#[try_from(i32, String | _ => Err("nomatch".to_string())?)] #[into(i32)] pub enum S { ' + ", ".join(vs) + " }"
+    if ghost_at is not None and ghost_at == nv:
+        vs.append("#[ghost] G")
+    into_tail = " | _ => 999" if ghost_at is not None else ""
+    item = '#[try_from(i32, String | _ => Err("nomatch".to_string())?)] #[into(i32' + into_tail + ')] pub enum S { ' + ", ".join(vs) + " }"
     m.derive_src = item
     m.types.append("#[derive(o2o)] #[derive(Debug, Clone, PartialEq)] " + item)
     for x in range(-1, 15):
@@ -644,7 +685,9 @@ def design_prim(r, name):
         exp = v["x"] if v["kind"] == "lit" else v["into"]
         m.tests.append((f"into_{v['k']}", f'let r: i32 = S::V{v["k"]}.into(); println!("{name} into_{v["k"]} {{:?}}", r);', str(exp)))
         m.tests.append((f"into_ref_{v['k']}", f'let r: i32 = (&S::V{v["k"]}).into(); println!("{name} into_ref_{v["k"]} {{:?}}", r);', str(exp)))
-    # round trip when literals are distinct and no earlier pattern shadows
+    if ghost_at is not None:
+        m.tests.append(("into_ghost", f'let r: i32 = S::G.into(); println!("{name} into_ghost {{:?}}", r);', "999"))
+        m.tests.append(("into_ref_ghost", f'let r: i32 = (&S::G).into(); println!("{name} into_ref_ghost {{:?}}", r);', "999"))
     return m
 
 
@@ -654,7 +697,13 @@ def design_flat7(r, name):
     return design_flat_perm(r, name) if t < 0.1 else design_flat_parent(r, name) if t < 0.55 else design_flat(r, name)
 
 
-FAMILIES = {"flat7": design_flat7, "flat": design_flat_any, "tree": design_tree_any, "hints": design_tree_hints, "enum": design_enum, "prim": design_prim}
+def design_subst(r, name):
+    """the mix used for C10: programs whose inline expressions use `~` / `@` (flat structs with actions, enums whose
+    payload expressions designate another position)"""
+    return design_enum(r, name) if r.random() < 0.45 else design_flat(r, name)
+
+
+FAMILIES = {"subst": design_subst, "flat7": design_flat7, "flat": design_flat_any, "tree": design_tree_any, "hints": design_tree_hints, "enum": design_enum, "prim": design_prim}
 
 
 # ------------------------------------------------------------------------------------------------
